@@ -1207,3 +1207,56 @@ def stream_captured_slot(rng):
         stmts.append(["obj", _T("B", nick, False, [("f1", ["int", 5])], count=rng.choice([None, ["int", 0]]))])
     return {"version": 3, "options": [], "stmts": stmts}, \
         ["captured_slot", "forward_ref", "formula"] + (["nick"] if nick else []) + (["var_top"] if shape == "var" else ["nested" if shape == "nested" else "friend"])
+
+
+def stream_randref_idle_target(rng):
+    """the target of a random_reference gets rows in SOME iterations only (count is a formula of the
+    driver row's id: 1,0,1,.. / 1,0,0,1 / 2,0,0,2), the picker runs in every iteration - by table name and
+    by nickname: with no row in the current iteration the pick falls back to all rows so far; over
+    continuation chains the bounds come from the restored counters.  Every picked id must be the id of a
+    row that exists."""
+    shape = rng.choice(["101", "1001", "2002"])
+    a = ["attr", ["var", "A"], "id"]
+    if shape == "101":
+        cnt = ["mul", ["sub", a, ["int", 2]], ["sub", a, ["int", 2]]]                          # 1,0,1,4
+    elif shape == "1001":
+        cnt = ["sub", ["int", 1], ["mul", ["sub", a, ["int", 1]], ["sub", ["int", 4], a]]]     # 1,-1,-1,1
+    else:
+        cnt = ["sub", ["int", 2], ["mul", ["sub", a, ["int", 1]], ["sub", ["int", 4], a]]]     # 2,0,0,2
+    nick = rng.choice(["bb", None])
+    stmts = [["obj", _T("A", None, False, [("f0", ["int", 1])])],
+             ["obj", _T("B", nick, False, [("f1", ["int", 2])], count=_F(["e", cnt]))]]
+    pf = [("r", ["randref", "B"])]
+    if nick and rng.random() < 0.6:
+        pf.append(("q", ["randref", nick]))
+    if rng.random() < 0.4:
+        pf.append(("i", _F(["e", ["attr", ["var", "r"], "id"]])))
+    stmts.append(["obj", _T("P", None, False, pf, count=rng.choice([None, ["int", 2]]))])
+    if rng.random() < 0.3:      # a just_once row of the target table as well (re-saved in continued runs)
+        stmts.insert(1, ["obj", _T("B", "jj", True, [("f1", ["int", 9])])])
+    return {"version": rng.choice([2, 3]), "options": [], "stmts": stmts,
+            "raw": [rng.randint(0, 10 ** 6) for _ in range(60)], "bias": rng.choice(["lo", "hi", "hi", "mix"])}, \
+        ["random_reference", "count_formula", "idle_table", "randref_idle_target"] + (["nick"] if nick else [])
+
+
+def stream_name_is_nick_and_table_forward(rng):
+    """one spelling is the NICKNAME of a template of one table and the NAME of another table, and it is
+    referenced forward (before either row exists), by an earlier row or by a friend; templates in both
+    orders, with counts, ordinary or just_once; the reserved id must be taken by a row of the table the
+    slot belongs to (the table name wins the slot) or the iteration must fail"""
+    tb, other = rng.choice([("B", "A"), ("B", "C")])
+    nicked = _T(other, tb, rng.random() < 0.25, [("f0", ["int", 3])], count=rng.choice([None, None, ["int", 2]]))
+    plain = _T(tb, rng.choice([None, None, "own"]), rng.random() < 0.2, [("f1", ["int", 4])], count=rng.choice([None, None, ["int", 2], ["int", 0]]))
+    pair = [["obj", nicked], ["obj", plain]]
+    if rng.random() < 0.5:
+        pair.reverse()
+    first = _T("V", None, False, [("r", ["ref", tb])] + ([("m", ["int", 1])] if rng.random() < 0.3 else []))
+    if rng.random() < 0.3:
+        first["fields"].append(["r2", ["ref", tb]])
+    stmts = [["obj", first]] + pair
+    if rng.random() < 0.4:
+        stmts.append(["obj", _T("D", None, False, [("back", ["ref", tb]), ("o", ["ref", other])])])
+    if rng.random() < 0.25:     # only the nicknamed template exists below the reference: the table's own template comes first
+        stmts = [pair[1], ["obj", first], pair[0]]
+    return {"version": rng.choice([2, 3]), "options": [], "stmts": stmts}, \
+        ["forward_ref", "nick", "name_collisions", "name_is_nick_and_table_forward"]
